@@ -47,6 +47,9 @@ pub const MENU: &[(&str, bool)] = &[
     ("(if)", true),
     // a fault raised inside a procedure of the bundled library
     ("(for-each 5 '(1 2))", true),
+    // faults without a position of their own inside derived forms
+    ("(let ((q 1))\n  (car q))", true),
+    ("(cond (#t (vector-ref (vector) 1)))", true),
 ];
 
 /// texts that cannot be read as a datum; only ever the LAST thing in a file (what matters is how
@@ -76,10 +79,12 @@ pub struct Rendered {
 
 pub fn render(c: &Case) -> Rendered {
     let nl = if c.crlf { "\r\n" } else { "\n" };
-    let mut text = String::from(HEADER);
+    // every other layout starts with two empty lines (a file need not begin with text)
+    let lead = if c.gap % 2 == 1 { "\n\n" } else { "" };
+    let mut text = format!("{}{}", lead.replace('\n', nl), HEADER);
     let mut extents = vec![];
     // positions are computed on the LF-normalised text (the file reader strips CR)
-    let mut norm = String::from(HEADER);
+    let mut norm = format!("{}{}", lead, HEADER);
     let pos_of = |t: &str| {
         let line = t.matches('\n').count() as u32 + 1;
         let col = t.rsplit('\n').next().unwrap_or("").chars().count() as u32 + 1;
